@@ -19,7 +19,7 @@ func init() {
 		ID:      "C09",
 		Batches: func(tier string) int { return map[string]int{"quick": 16, "thorough": 64}[tier] },
 		Run:     run,
-		Rule: "cases: the inputs of C01's workload that R rejects and that do not start with a BOM; each is given to 10 front-ends, the reader variants under chunk plans " +
+		Rule: "cases: the inputs of C01's workload that R rejects and that do not start with a BOM; each is given to 10 front-ends and to one long-lived instance of each parser, validator and tokenizer that has seen every earlier input, the reader variants under chunk plans " +
 			"(whole, 1-byte reads, fixed 2/3/7, every single split point for inputs up to 96 bytes, (n>0, EOF) on the last read), and the reported Line/Column is compared with the position computed from R's longest viable prefix. " +
 			"non-trivial: rejected input whose viable prefix is at least one byte long, or that contains a newline before the offending byte; distinct: enumerated strings distinct by construction, the rest by digest",
 		Assumptions: []string{
